@@ -494,11 +494,30 @@ static bool has_flonum2(Type *ty) {
   return has_flonum(ty, 8, 16, 0);
 }
 
+// Returns true if `ty` has a long double somewhere inside.
+static bool has_ldouble(Type *ty) {
+  if (ty->kind == TY_STRUCT || ty->kind == TY_UNION) {
+    for (Member *mem = ty->members; mem; mem = mem->next)
+      if (has_ldouble(mem->ty))
+        return true;
+    return false;
+  }
+
+  if (ty->kind == TY_ARRAY)
+    return has_ldouble(ty->base);
+  return ty->kind == TY_LDOUBLE;
+}
+
 // Computes how many general-purpose and SSE registers a struct or union
 // of at most 16 bytes occupies when it is passed or returned in
 // registers. Returns false if it has to go to memory.
 static bool struct_reg_counts(Type *ty, int *gp, int *fp) {
   if (ty->size == 0 || ty->size > 16)
+    return false;
+
+  // An aggregate with an x87 member (class X87 or, merged with
+  // anything else, MEMORY) is never passed in registers.
+  if (has_ldouble(ty))
     return false;
 
   bool fp1 = has_flonum1(ty);
